@@ -54,7 +54,7 @@ namespace {
   } else {
     auto tags = tokens;
     tags.erase(begin(tags));
-    if (std::isdigit(tags.rbegin()->at(0))) {
+    if (!tags.rbegin()->empty() && std::isdigit(tags.rbegin()->at(0))) {
       tags.erase(prev(end(tags)));
     }
     return Morphology{ tags };
